@@ -219,7 +219,7 @@ PROPS["C19"] = {
     "init_pkgs": DEFAULT_INIT + ["encoding/xml", "bufio", "bytes"],
     "harnesses": [
         {"pkg": EX, "func": "VerifH_C19_extension", "covers": ["has-extension", "no-extension"]},
-        {"pkg": EX, "func": "VerifH_C19_json_depth2", "opts": {"max_steps": 20000000}, "covers": ["json-in-string", "several-urls"]},
+        {"pkg": EX, "func": "VerifH_C19_json_depth2", "opts": {"max_steps": 20000000}, "covers": ["json-in-string", "json-in-string-escaped", "several-urls"]},
         {"pkg": EX, "func": "VerifH_C19_json_depth3", "opts": {"max_steps": 20000000, "max_wall_s": 1500}, "thorough_only": True, "covers": ["json-in-string", "several-urls"]},
         {"pkg": EX, "func": "VerifH_C19_s3_legacy", "covers": ["object-linked", "next-page"]},
         {"pkg": EX, "func": "VerifH_C19_s3_v2", "covers": ["objects-and-prefixes", "prefix-linked", "continuation"]},
@@ -486,14 +486,14 @@ PROPS["C16"] = {
     "explanation": "the per-seed resource discipline, as step obligations so that 'N vs 4N seeds' follows by induction: every response body obtained by archive() is closed on every path and a spooled temp file is either handed to the item or closed - natively: removed from the temp dir - on every ProcessBody path (C02 harnesses); after postprocessItem the item holds no body and the body is closed; "
                    "closeBodies leaves no node of the tree holding a body (all depths, all statuses); the per-host limiter table never exceeds maxBuckets for any arrival order and usage counts (all map iteration orders); "
                    "at the end of a seed's life the reactor tracks nothing and all tokens are free (C01/C12 harnesses).",
-    "bounds": "trees of <=3 levels / <=2 children; limiter: maxBuckets 1-2, <=2 pre-existing hosts with usage 1..1000, 2 arrivals from 3 hosts; plus the bounds of the C01, C02, C06 and C12 harnesses it reuses",
+    "bounds": "trees of <=3 levels / <=2 children; limiter: maxBuckets 1-2, <=2 pre-existing hosts with usage 1..1000 each healthy or failing (streak 1-2, lowered rate, penalty running or not), 2 arrivals from 3 hosts; plus the bounds of the C01, C02, C06 and C12 harnesses it reuses",
     "outside": "goroutine and file-descriptor counts of a live process, temporary files on a real file system, quiescence of the WARC writer: not encodable; empty host names and usage counts >= 2^31-1 (evictLFU cannot evict those; unreachable for http URLs)",
     "assumptions": COMMON_ASSUME + ["stub contracts of C01/C02/C06"],
     "models": C16_MODELS,
     "stub_pkgs": DEFAULT_STUBS + [STATS],
     "harnesses": [
         {"pkg": PP, "func": "VerifH_C16_close_bodies", "covers": ["three-levels", "body-closed"]},
-        {"pkg": RL, "func": "VerifH_C16_bucket_bound", "opts": {"abstract_time": True}, "covers": ["table-full"]},
+        {"pkg": RL, "func": "VerifH_C16_bucket_bound", "opts": {"abstract_time": True}, "covers": ["table-full", "failing-host-in-table"]},
         {"pkg": AR, "func": "VerifH_C02_archive", "models": ARCH_MODELS, "opts": {"max_steps": 50000000, "unwind": 70000}, "covers": ["archived", "retries-exhausted"]},
         {"pkg": AR, "func": "VerifH_C02_process_body", "models": ARCH_MODELS, "opts": {"max_steps": 50000000, "unwind": 70000}, "covers": ["body-error", "spooled"]},
         {"pkg": PP, "func": "VerifH_C06_postprocess", "models": POSTPROC_MODELS, "opts": {"map_order_all": False}, "covers": ["body-released"]},
@@ -506,7 +506,7 @@ PROPS["C07"] = {
     "level": "model_checking",
     "explanation": "the real HTMLAssets/HTMLOutlinks/extractBaseTag/resolveURL code and the real goquery/cascadia selector engine run from SSA on DOM trees built node by node (which elements and attributes are present is chosen symbolically); "
                    "expected assets/outlinks come from the attribute table of the statement; natively the same DOM is rendered to text and parsed by the real x/net/html parser.",
-    "bounds": "per page at most one each of img (src absolute / src relative / srcset with two candidates), script src (relative), link href (stylesheet / alternate), video src, audio src, source src / srcset (media harness: any combination), a href (dot-segment relative); disable-html-tag in {none, img, script, link, video, audio, source, a, img+audio, video+source}; capture-alternate-pages on/off",
+    "bounds": "per page at most one each of img (src absolute / src relative / srcset with two candidates), script src (relative), link href (stylesheet / alternate), video src, audio src, source src / srcset (media harness: any combination), a href (dot-segment relative, query-only, scheme-relative); disable-html-tag in {none, img, script, link, video, audio, source, a, img+audio, video+source}; capture-alternate-pages on/off",
     "outside": "url(...) in style elements/attributes and script-text sniffing (regular expressions are opaque in the engine); real-world HTML parsing quirks (only the native replay goes through the parser); browser-conformant resolution beyond net/url.ResolveReference; base elements",
     "assumptions": COMMON_ASSUME + ["regexp objects are opaque: regex-derived assets are neither demanded nor excluded"],
     "stub_pkgs": DEFAULT_STUBS + [STATS],
@@ -516,8 +516,19 @@ PROPS["C07"] = {
     },
     "harnesses": [
         {"pkg": EX, "func": "VerifH_C07_attributes", "opts": {"max_steps": 50000000, "unwind": 100000, "map_order_all": False},
-         "covers": ["asset-expected", "srcset", "relative-script", "alternate", "tag-disabled", "anchor", "anchor-disabled"]},
+         "covers": ["asset-expected", "srcset", "relative-script", "alternate", "tag-disabled", "anchor", "anchor-disabled", "query-only-anchor"]},
         {"pkg": EX, "func": "VerifH_C07_media", "opts": {"max_steps": 50000000, "unwind": 100000, "map_order_all": False},
          "covers": ["asset-expected", "audio", "source-srcset", "tag-disabled", "anchor"]},
     ],
 }
+
+
+# the stage harnesses of C03 also decide C14's "a paused worker takes no work" for the real stage workers
+for _h in PROPS["C03"]["harnesses"]:
+    if _h["func"] in ("VerifH_C03_archiver_workers", "VerifH_C03_postprocessor_stop", "VerifH_C03_preprocessor_stop"):
+        _h2 = dict(_h)
+        _h2["covers"] = ["work-arrives-while-paused", "stopped"]
+        PROPS["C14"]["harnesses"].append(_h2)
+for _h in PROPS["C03"]["harnesses"]:
+    if _h["func"] in ("VerifH_C03_archiver_workers", "VerifH_C03_postprocessor_stop", "VerifH_C03_preprocessor_stop") and "work-arrives-while-paused" not in _h["covers"]:
+        _h["covers"] = _h["covers"] + ["work-arrives-while-paused"]
